@@ -156,16 +156,31 @@ func (sc *scenario) container(t *rapid.T, ents []entry) tg.UpdatesClass {
 	sc.w.mu.Lock()
 	date := sc.w.date
 	sc.w.mu.Unlock()
+	// honest containers either carry seq 0 or the next value of the server's
+	// updates sequence; a container that is generated but never pushed (lost)
+	// leaves a seq gap
+	seq := 0
+	if rapid.IntRange(0, 2).Draw(t, "withSeq") == 0 {
+		sc.w.mu.Lock()
+		if rapid.IntRange(0, 4).Draw(t, "seqLost") == 0 {
+			sc.w.seq++ // an earlier container of the sequence was lost
+			sc.class("seq-gap")
+		}
+		sc.w.seq++
+		seq = sc.w.seq
+		sc.w.mu.Unlock()
+		sc.class("seq")
+	}
 	switch rapid.IntRange(0, 2).Draw(t, "containerKind") {
 	case 0:
-		if len(ups) == 1 {
+		if len(ups) == 1 && seq == 0 {
 			return &tg.UpdateShort{Update: ups[0], Date: date}
 		}
 		fallthrough
 	case 1:
-		return &tg.Updates{Updates: ups, Date: date}
+		return &tg.Updates{Updates: ups, Date: date, Seq: seq}
 	default:
-		return &tg.UpdatesCombined{Updates: ups, Date: date}
+		return &tg.UpdatesCombined{Updates: ups, Date: date, Seq: seq, SeqStart: seq}
 	}
 }
 
@@ -304,7 +319,7 @@ func (sc *scenario) key() string { return strings.Join(sc.steps, " ") }
 
 func (sc *scenario) classList() []string {
 	var out []string
-	for _, c := range []string{"dup", "reorder", "loss", "push-no-wait", "gap-timer-elapsed", "updatesTooLong", "channelTooLong", "ptsChanged", "qts0", "unpushed-tail", "sliced", "other-in-diff", "toolong-diff"} {
+	for _, c := range []string{"dup", "reorder", "loss", "push-no-wait", "gap-timer-elapsed", "updatesTooLong", "channelTooLong", "ptsChanged", "qts0", "unpushed-tail", "sliced", "other-in-diff", "toolong-diff", "seq", "seq-gap"} {
 		if sc.classes[c] {
 			out = append(out, c)
 		}
